@@ -92,6 +92,8 @@ def cond_hit(c, a):
 
 def rand_cond(rng, dom):
     r = rng.below(10)
+    if rng.chance(1, 14):
+        return ('i', [])   # In() without alternatives (e.g. an empty list spread into it): a stub that never matches
     if r == 0:
         return ('y', [])
     if r < 6:
@@ -136,6 +138,7 @@ def arg_pool(rng, kind):
 def rand_vals(rng, base, ln):
     """A result sequence in which adjacent positions often carry the same value (v,v,w: a dropped or merged position shows),
     sometimes a value that differs only in the second tuple component of the two-result target (+50), sometimes an earlier value."""
+    base += rng.below(5)   # interface/slice-typed targets encode nil / slice / string / int in the token's residue mod 5
     vals, cur = [], base
     for i in range(ln):
         if i:
@@ -184,7 +187,9 @@ def gen_spec_target(rng, kind, vbase=0):
             continue
         if var:
             # In([]interface{}{…}, …) alternatives must have one arity (a shorter first alternative ends InExpr.Eval: C04's business)
-            if have_when and rng.chance(1, 4):
+            if have_when and rng.chance(1, 14):
+                c = ('i', [])
+            elif have_when and rng.chance(1, 4):
                 t0 = rng.choice(cond_pool)
                 c = ('i', sorted({t0} | {t for t in cond_pool if len(str(t)) == len(str(t0)) and rng.chance(1, 2)}))
             else:
@@ -194,7 +199,7 @@ def gen_spec_target(rng, kind, vbase=0):
         vals = rand_vals(rng, vbase + 1000 * (s + 1), rand_len(rng))
         if not have_when or (c[0] != 'i' and rng.chance(1, 3)):
             if c[0] == 'i':
-                c = ('e', [c[1][0]])
+                c = ('e', [c[1][0] if c[1] else rng.choice(cond_pool)])
             toks.append('mW:' + show_cond(c))
         else:
             toks.append('wW:' + show_cond(c))
@@ -217,11 +222,15 @@ def gen_spec(rng):
     (`T:k` switches).  Returns (line, [(stubs, default) per target]) with stubs = [(cond, values)] in match order."""
     kind = rng.choice(KINDS)
     cfg0, calls0, stubs0, dflt0 = gen_spec_target(rng, kind)
+    # a few histories run with goom's debug or trace logging on: what callers receive must not depend on the log level
+    log = [rng.choice(['L:d', 'L:t'])] if rng.chance(1, 16) else []
     if kind not in SIBLING_KINDS or not rng.chance(1, 3):
-        return f'c05.seq {kind} ' + ' '.join(cfg0 + calls0), [(stubs0, dflt0), None]
+        return f'c05.seq {kind} ' + ' '.join(log + cfg0 + calls0[:60 if log else None]), [(stubs0, dflt0), None]
     # the sibling is given overlapping values on purpose: only the cursors tell the two targets apart
     cfg1, calls1, stubs1, dflt1 = gen_spec_target(rng, kind, vbase=0 if rng.chance(1, 2) else 10000)
-    toks = cfg0 + ['T:1'] + cfg1
+    toks = log + cfg0 + ['T:1'] + cfg1
+    if log:
+        calls0, calls1 = calls0[:40], calls1[:40]
     act, i0, i1 = 1, 0, 0
     while i0 < len(calls0) or i1 < len(calls1):
         k = 0 if i1 >= len(calls1) else 1 if i0 >= len(calls0) else rng.below(2)
@@ -289,7 +298,7 @@ def spec_of_tokens(toks):
         elif k == 'wA' and isinstance(cur, int) and stubs[cur][1]:
             stubs[cur][1].append(int(a))
         elif k in ('mW', 'wW'):
-            c = ('y', []) if a == 'y' else (a[0], [int(x) for x in a[1:].split(',')])
+            c = ('y', []) if a == 'y' else (a[0], [int(x) for x in a[1:].split(',') if x])
             stubs.append((c, []))
             cur = len(stubs) - 1
         elif k == 'wS' and isinstance(cur, int) and not stubs[cur][1] and a:
@@ -313,6 +322,8 @@ def spec_of_line(line):
     per = [[], []]
     act = 0
     for tok in line.split()[2:]:
+        if tok in ('L:d', 'L:t'):
+            continue
         if tok.startswith('T:'):
             if tok[2:] not in ('0', '1'):
                 return None
@@ -345,6 +356,8 @@ def gen_free(rng):
             nxt[0] += 1
         return nxt[0]
 
+    if rng.chance(1, 16):
+        toks.append(rng.choice(['L:d', 'L:t']))
     for _ in range(2 + rng.below(30)):
         r = rng.below(20)
         if kind in SIBLING_KINDS and rng.chance(1, 12):
@@ -361,7 +374,9 @@ def gen_free(rng):
             toks.append('wM:' + ','.join(f'{rng.choice(cond_pool)}={val()}' for _ in range(1 + rng.below(3))))
         else:
             c = ('e', [rng.choice(cond_pool)]) if var else rand_cond(rng, dom)
-            if var and rng.chance(1, 4):
+            if var and rng.chance(1, 14):
+                c = ('i', [])
+            elif var and rng.chance(1, 4):
                 t0 = c[1][0]
                 c = ('i', sorted({t0} | {t for t in cond_pool if len(str(t)) == len(str(t0)) and rng.chance(1, 2)}))
             if c[0] != 'i' and rng.chance(1, 2):
@@ -577,10 +592,16 @@ def build_probe(race=False):
     return b
 
 
-def run_lines(binary, test, ops, tag, timeout=3000):
+PROBE_TIMEOUT = {'quick': 90, 'thorough': 3000}   # per probe process; typical 1-5 s (quick), 1-3 min (thorough)
+TIER = ['quick']
+
+
+def run_lines(binary, test, ops, tag, timeout=None):
     """Run the probe on `ops`.  A probe that dies or times out is re-run ONCE; a failure that does not reproduce is not reported.
     A crash that reproduces is pinned to the op that was executing (`crash:rc=…` becomes that op's observation, a violation of
-    whatever was demanded of it) and the remaining ops are run in a fresh process.  Two timeouts are a machinery error."""
+    whatever was demanded of it) and the remaining ops are run in a fresh process.  A hang that reproduces is pinned to the op
+    that never answered (`hang:…`), the ops after it are `skipped` (excluded from oracles and from the comparison)."""
+    timeout = timeout or int(os.environ.get('VERIF_C05_PROBE_TIMEOUT', PROBE_TIMEOUT[TIER[0]]))
     ops_path = os.path.join(C.BUILD, f'{tag}.ops')
     open(ops_path, 'w').write('\n'.join(ops) + '\n')
 
@@ -590,6 +611,8 @@ def run_lines(binary, test, ops, tag, timeout=3000):
             rc, log = C.run_probe(binary, test, path, outp, timeout=timeout)
         except subprocess.TimeoutExpired:
             return -9, 'timeout', C.read_indexed(outp, len(sub))
+        if 'panic: test timed out' in log:   # the test binary's own -test.timeout fired first: a hang, not a crash
+            rc = -9
         return rc, log, C.read_indexed(outp, len(sub))
 
     rc, log, impl = once(ops, ops_path)
@@ -597,13 +620,22 @@ def run_lines(binary, test, ops, tag, timeout=3000):
         C.log(f'C05: probe {test} incomplete (rc={rc}); re-running once')
         rc, log, impl = once(ops, ops_path)
         if None in impl and rc == -9:
-            raise C.Infra(f'probe {test} timed out twice ({timeout}s each)')
+            # a hang that reproduces is a verdict about the op that never answered; what follows it is not run
+            k = impl.index(None)
+            impl[k] = f'hang:no answer within {timeout}s (twice)'
+            impl[k + 1:] = ['skipped'] * (len(impl) - k - 1)
+            return rc, log, impl, ops_path
         crashes = 0
         while None in impl:
             k = impl.index(None)
             crashes += 1
             if crashes > 4:
-                raise C.Infra(f'probe {test} keeps dying (rc={rc}): {log[-600:]}')
+                impl[k:] = ['skipped'] * (len(impl) - k)   # four pinned crashes are verdict enough
+                break
+            if rc == -9:
+                impl[k] = f'hang:no answer within {timeout}s'
+                impl[k + 1:] = ['skipped'] * (len(impl) - k - 1)
+                break
             impl[k] = f'crash:rc={rc}'
             rest = ops[k + 1:]
             if not rest:
@@ -638,7 +670,9 @@ def validate_conc(exe, ops, impl, tag):
         toks = op.split()
         n = int(toks[3])
         obs = impl[i]
-        if obs is None or obs.startswith('config-panic') or obs.startswith('crash:') or obs == 'bad-op':
+        if obs == 'skipped':
+            continue
+        if obs is None or obs.startswith(('config-panic', 'crash:', 'hang:')) or obs == 'bad-op':
             res['oracle_bad'].append((i, op, obs, 'no history: the probe process died reproducibly on this round or the configuration panicked'))
             continue
         repeated = toks[2] == 'r'
@@ -703,6 +737,8 @@ def seq_oracle(specs, ops, impl):
             continue
         exp, cnt, dcnt = spec_expected(op, specs[op])
         obs = impl[i]
+        if obs == 'skipped':
+            continue
         got = obs.split(' | ')[0].split() if obs and ' | ' in obs else None
         if got == ['-']:
             got = []
@@ -721,6 +757,8 @@ def serve_oracle(ops, impl):
         if t[0] != 'c05.serve' or len(t) != 3:
             continue
         n, cur = int(t[1]), int(t[2])
+        if impl[i] == 'skipped':
+            continue
         if n < 1 or (n == 1 and cur != 0):
             continue  # unreachable states: nothing is demanded (model and implementation are still compared)
         want = f'idx={min(cur, n - 1)} '
@@ -776,7 +814,7 @@ def explore(tier, rng, exe, bins, scale=1, tag='c05'):
     r['seq_impl'] = impl
     r['seq_model'] = C.run_driver(exe, ops_path, os.path.join(C.BUILD, tag + '.seq.model'))
     r['seq_bad'] = seq_oracle(specs, seq_ops, impl) + serve_oracle(seq_ops, impl)
-    r['seq_diffs'] = C.diff_streams(seq_ops, impl, r['seq_model'])
+    r['seq_diffs'] = [d for d in C.diff_streams(seq_ops, impl, r['seq_model'], limit=len(seq_ops)) if d[2] != 'skipped'][:20]
     rc, log, cimpl, _ = run_lines(bins['plain'], 'TestVerifC05Conc', conc_ops, tag + '.conc')
     r['conc_impl'] = cimpl
     r['conc'] = validate_conc(exe, conc_ops, cimpl, tag + '.conc')
@@ -799,6 +837,7 @@ def explore(tier, rng, exe, bins, scale=1, tag='c05'):
 
 
 def run(tier):
+    TIER[0] = tier
     out = C.Outcome(PROP, tier)
     rng = C.Rng(C.seed()).fork(PROP)
     ok, msg, changed = regen_cursor()
@@ -903,6 +942,8 @@ def write_evidence(out, tier, proof, r, changed, widened):
         dist['nomatch_panics'] += vals.count('P')
         dist['In_clauses'] += sum(1 for x in t[2:] if x.startswith('wW:i'))
         dist['Any_clauses'] += sum(1 for x in t[2:] if x.endswith('W:y'))
+        dist['empty_In_clauses'] = dist.get('empty_In_clauses', 0) + sum(1 for x in t[2:] if x == 'wW:i')
+        dist['histories_with_debug_or_trace_logging'] = dist.get('histories_with_debug_or_trace_logging', 0) + (1 if t[2:3] and t[2] in ('L:d', 'L:t') else 0)
         dist['Matches_calls'] = dist.get('Matches_calls', 0) + sum(1 for x in t[2:] if x.startswith('wM:'))
         if op in specs:
             dist['spec_histories'] += 1
@@ -918,7 +959,7 @@ def write_evidence(out, tier, proof, r, changed, widened):
                 dist['histories_with_>=2_stubs_advancing'] += 1
             if t[1] in VARIADIC:
                 dist['variadic_spec_histories'] = dist.get('variadic_spec_histories', 0) + 1
-                ar = [len(str(cd[1][0])) for cd, _ in stubs]
+                ar = [len(str(cd[1][0])) for cd, _ in stubs if cd[1]]
                 dist['variadic_same_arity_conditions_back_to_back'] = dist.get('variadic_same_arity_conditions_back_to_back', 0) + \
                     sum(1 for x, y in zip(ar, ar[1:]) if x == y)
                 dist['variadic_different_arity_conditions_back_to_back'] = dist.get('variadic_different_arity_conditions_back_to_back', 0) + \
